@@ -20,12 +20,10 @@ import ccmod, shutil
 
 H = os.path.join(HERE, "harness")
 
-WITNESSES = [
-    ("w_wait_returns_unnotified", "notify", 0, ["W", "W"],
-     [[0, 0], [0, 0], [0, 0], [0, 0], [1, 0], [1, 0], [1, 0], [1, 0]]),
-    ("w_sema_parks_with_count_positive", "sema", 1, ["A", "RA"],
-     [[0, 0], [1, 0], [0, 0], [0, 0], [1, 0], [1, 0], [0, 0], [0, 0], [1, 0], [1, 0], [0, 0]]),
-]
+# witness schedules of *_refuted theorems, replayed on the real code on every run.
+# None at present: F7 (notifyListWait) and the semaAcquire lost wake-up are repaired; their
+# former schedules are Examples in coq/theories/C11/Props.v.
+WITNESSES = []
 
 SOP = {"A": "SAcq", "R": "SRel"}
 NOP = {"W": "NWait", "S": "NOne", "B": "NAll"}
